@@ -1,5 +1,5 @@
 import T4V.Proofs.ConvertAll
-import T4V.Proofs.PostDen
+import T4V.Proofs.PostClosed
 import T4V.Model.Post
 /-!
 # Property C01 — every point stays in the volume of the cell that owns it (Boolean core)
@@ -88,8 +88,7 @@ theorem exactly_one (env : CEnv) (σ : TSense) (cv : Nat → Bool) (hE : EnvOK e
 `remove_unused_volumes` keep the denotation of every surviving non-virtual volume and delete only volumes
 that contain no point — for dictionaries with unique keys and every sense assignment at which equally
 defined surfaces have equal senses and the two auxiliary union planes bound nothing.  `Denotes'` reads a
-reference to a deleted volume as ∅; the full-strength statement below (strict `Denotes`) additionally needs
-that no reference to a deleted volume is left, which is not proved (C08 checks it on every written file). -/
+reference to a deleted volume as ∅; the full-strength statement is `postProcess_preserves` below. -/
 theorem postProcess_preserves_partial (dedup : Bool) (surfs : List (Nat × String)) (u : Nat × Nat)
     (vols : List (Nat × Vol)) (σ : TSense) (hnd : KeysNodup vols) (hσu : ¬ (σ u.1 = true ∧ σ u.2 = false))
     (hσeq : ∀ a b ka kb, (a, ka) ∈ surfs → (b, kb) ∈ surfs → ka = kb → σ a = σ b)
@@ -100,17 +99,29 @@ theorem postProcess_preserves_partial (dedup : Bool) (surfs : List (Nat × Strin
     | none => b = false :=
   postProcess_den' dedup surfs u vols σ hnd hσu hσeq k v b hk hf hd
 
-/-- Full-strength statement for the post-processing, **not yet proved** (kept as a definition so
-that it is type-checked and visible): for a sense assignment that respects the de-duplication
-renumbering, `postProcess` keeps the denotation of every surviving non-virtual volume and deletes
-only volumes that are false at the point. -/
-def postProcess_preserves : Prop :=
-  ∀ (dedup : Bool) (surfs : List (Nat × String)) (u : Nat × Nat) (vols : List (Nat × Vol)) (σ : TSense),
-    u.1 ≠ u.2 → ¬ (σ u.1 = true ∧ σ u.2 = false) →
-    (∀ a b ka kb, (a, ka) ∈ surfs → (b, kb) ∈ surfs → ka = kb → σ a = σ b) →
-    ∀ k v b, dictGet? vols k = some v → v.fictive = false → Denotes vols σ k b →
-      match dictGet? (postProcess dedup surfs u vols).2 k with
-      | some _ => Denotes (postProcess dedup surfs u vols).2 σ k b
-      | none => b = false
+/-- **Post-processing, full strength**: for a dictionary with unique keys and no dangling reference (what
+the conversion loop produces; both are also checked at run time on the dictionaries captured from the
+code), `postProcess` — de-duplication + renumbering, `remove_empty_volumes`, `remove_unused_volumes` —
+keeps the (strict) denotation of every surviving non-virtual volume, deletes only volumes containing no
+point, and leaves no dangling reference. -/
+theorem postProcess_preserves (dedup : Bool) (surfs : List (Nat × String)) (u : Nat × Nat)
+    (vols : List (Nat × Vol)) (σ : TSense) (hnd : KeysNodup vols) (hc : Closed vols)
+    (hσu : ¬ (σ u.1 = true ∧ σ u.2 = false))
+    (hσeq : ∀ a b ka kb, (a, ka) ∈ surfs → (b, kb) ∈ surfs → ka = kb → σ a = σ b)
+    (k : Nat) (v : Vol) (b : Bool) (hk : dictGet? vols k = some v) (hf : v.fictive = false)
+    (hd : Denotes vols σ k b) :
+    Closed (postProcess dedup surfs u vols).2 ∧
+    match dictGet? (postProcess dedup surfs u vols).2 k with
+    | some _ => Denotes (postProcess dedup surfs u vols).2 σ k b
+    | none => b = false := by
+  have hcl := postProcess_closed dedup surfs u vols hc hnd
+  refine ⟨hcl, ?_⟩
+  have h := postProcess_den' dedup surfs u vols σ hnd hσu hσeq k v b hk hf hd
+  cases hg : dictGet? (postProcess dedup surfs u vols).2 k with
+  | none => simpa [hg] using h
+  | some w =>
+    simp only [hg] at h ⊢
+    obtain ⟨f, hf'⟩ := h
+    exact ⟨f, den_of_den'_closed _ σ hcl f k b (dictGet?_some_hasKey hg) hf'⟩
 
 end T4V.C01
